@@ -60,6 +60,39 @@ macro_rules! c17_layout {
                 assert!(got == want, "C17: after switching the wrapper's variant the next key is not decoded by that layout");
                 kani::cover!(k == k1 && k == k2 && s1 == KeyState::Down && s2 == KeyState::Down);
             }
+            /// A live decoder holding the wrapper (by reference / by value) answers exactly like a live
+            /// decoder holding the wrapped layout itself, for the same pressed modifiers, the same
+            /// two-event history and the same key - whatever the decoder asks of its layout.
+            #[kani::proof]
+            pub fn c17_q_decoder_with_wrapper_equals_decoder_with_layout() {
+                use crate::refmodel::is_modifier_key;
+                let m0 = any_mods();
+                let h = any_mode();
+                let a = AnyLayout::$ty($ty);
+                let by_ref: bool = kani::any();
+                let (k1, s1) = (any_key(), any_state());
+                let (k2, s2) = (any_key(), any_state());
+                let k = any_key();
+                kani::assume(!is_modifier_key(k));
+                let mut d2 = evdec($ty, &m0, h);
+                let _ = d2.process_keyevent(KeyEvent::new(k1, s1));
+                let _ = d2.process_keyevent(KeyEvent::new(k2, s2));
+                let want = d2.process_keyevent(KeyEvent::new(k, KeyState::Down));
+                let got = if by_ref {
+                    let mut d1 = evdec(&a, &m0, h);
+                    let _ = d1.process_keyevent(KeyEvent::new(k1, s1));
+                    let _ = d1.process_keyevent(KeyEvent::new(k2, s2));
+                    d1.process_keyevent(KeyEvent::new(k, KeyState::Down))
+                } else {
+                    let mut d1 = evdec(AnyLayout::$ty($ty), &m0, h);
+                    let _ = d1.process_keyevent(KeyEvent::new(k1, s1));
+                    let _ = d1.process_keyevent(KeyEvent::new(k2, s2));
+                    d1.process_keyevent(KeyEvent::new(k, KeyState::Down))
+                };
+                crate::show!("C17 live decoders {} by_ref={} pressed={:?} ev1=({:?},{:?}) ev2=({:?},{:?}) key={:?} mode={:?} wrapper={:?} layout={:?}", stringify!($ty), by_ref, m0, k1, s1, k2, s2, k, h, got, want);
+                assert!(got == want, "C17: a decoder holding the wrapper answers differently from a decoder holding the wrapped layout");
+                kani::cover!(by_ref && m0.capslock);
+            }
             /// thorough: the same through a live EventDecoder holding the wrapper
             #[kani::proof]
             pub fn c17_t_eventdecoder() {
